@@ -546,10 +546,23 @@ Fixpoint load (t : ty) (j : pv) {struct t} : res pv :=
       end
   | TOptional t' => match j with VNone => Ok VNone | _ => load t' j end
   | TUnion ts =>
-      (* `if o is None and NoneType in self.base_type: return o` *)
-      match j with
-      | VNone => if existsb is_tnone ts then Ok VNone else union_scan load j ts ts
-      | _ => union_scan load j ts ts
+      match ts with
+      | [a; b] =>
+          if is_tnone a || is_tnone b then
+            (* `NoneType in base_types and len(base_types) == 2` -> OptionalParser(base_types[0]):
+               for Union[None, X] the wrapped parser is the one of NoneType (finding F55) *)
+            match j with VNone => Ok VNone | _ => load a j end
+          else
+            match j with
+            | VNone => union_scan load j ts ts
+            | _ => union_scan load j ts ts
+            end
+      | _ =>
+        (* `if o is None and NoneType in self.base_type: return o` *)
+        match j with
+        | VNone => if existsb is_tnone ts then Ok VNone else union_scan load j ts ts
+        | _ => union_scan load j ts ts
+        end
       end
   | TLiteral vs => load_literal vs j
   | TNamedTuple n fts =>
